@@ -1,9 +1,9 @@
 """C03 via the shared incremental-history engine (vlib/incr.py)."""
 from .. import incr, simlib
 
-MANIFEST = dict(engine="nsim", category="exploration", technique='runtime monitoring: nsim traces; oracle = executable make-semantics reference model R(T), set equality',
-                text='From converged states a change set (touch/edit of sources and discovered headers, deletion of outputs, depfiles and logs, command, rspfile and manifest changes (including a manifest that ninja regenerates and reloads itself)) is applied and a random target subset is built fault-free under a PRNG schedule; the set of STARTed statements must EQUAL R(T) of the independent make-semantics model (both directions: unneeded / missed). A restat-focused family stresses order-only-only changes, restat pruning and the generator exemption.',
-                note='Trusted: vlib/model.py expected_runs (triaged against the manual; corrections logged in DESIGN.md). Only change kinds the property lists are generated.', ref="DESIGN.md §5 C03")
+MANIFEST = dict(engine="nsim+e2e", category="exploration", technique='runtime monitoring: nsim traces; oracle = executable make-semantics reference model R(T), set equality',
+                text='Plus real-binary runs (ASan+UBSan ninja, vtool commands) of projects with dyndep-provided outputs whose build log is due for recompaction: an unchanged tree stays "no work to do". From converged states a change set (touch/edit of sources and discovered headers, deletion of outputs, depfiles and logs, command, rspfile and manifest changes (including a manifest that ninja regenerates and reloads itself)) is applied and a random target subset is built fault-free under a PRNG schedule; the set of STARTed statements must EQUAL R(T) of the independent make-semantics model (both directions: unneeded / missed). A restat-focused family stresses order-only-only changes, restat pruning and the generator exemption.',
+                note='Trusted: vlib/model.py expected_runs (triaged against the manual; corrections logged in DESIGN.md). Only change kinds the property lists are generated.', ref="DESIGN.md §5 C03, §10.5 round 6")
 
 
 def setup():
@@ -15,7 +15,7 @@ def setup():
 
 def run(ctx):
     quick = ctx.tier == "quick"
-    n = 3000 if quick else 60000
+    n = 3000 if quick else 30000
     incr.run_incremental(ctx, "C03", n, size_range=(3, 9) if quick else (3, 14))
     # restat / order-only focused family
     incr.run_incremental(ctx, "C03", n // 3, salt=1, size_range=(3, 7),
@@ -28,6 +28,7 @@ def run(ctx):
                          change_kinds=["touch", "touch", "touch", "edit", "edit_hdr"], nchg_choices=(1, 2, 2, 3),
                          allow_faults=False, allow_interrupt=False, allow_edit_running=False)
     incr.run_dd_restat(ctx, "C03", n // 10)
+    incr.run_dd_deps(ctx, "C03", n // 8)
     incr.run_late_deps(ctx, "C03", n // 6)
     # self-regenerating manifests: build.ninja is a generator output selected by a config file
     incr.run_regen(ctx, "C03", n // 10, size_range=(2, 6))
